@@ -139,4 +139,85 @@ theorem verilog_resolved_rel {α : Type u} (hok : VOK cfg tl ports stmts) (lib :
       exact ⟨impl, sh, anm, vm, by rw [inst_node_kind hok i hi]; exact hf, hs, hmm⟩)
     exact ⟨an', v', c1, c2, c3⟩
 
+/-! ## (c) the datasheet step -/
+
+/-- a certified instance has as many input pins as its table row has inputs -/
+theorem cert_ins_length {lib : Lib} {row : String → Cell} {ord : String → List Nat} {h : NNet} {c : Nat}
+    (cert : InstCert lib row ord h c) : (h.net.node c).ins.length = (row (h.net.node c).kind).inNames.length := by
+  obtain ⟨impl, sh, _, hsh, _, _, _, _, hdesc, hfit, _⟩ := cert
+  have hd := describes_of hsh hdesc
+  simp only [pinsFitB, Bool.and_eq_true, beq_iff_eq] at hfit
+  rw [hfit.1, hd.nIn]
+
+/-- the library of the theorems as a predicate on cell types -/
+def libHas (lib : Lib) (ty : String) : Bool := (lib.find ty).isSome
+
+/-- every library instance carries its datasheet function under `σ` -/
+def LibDS (tl : TL) (stmts : List Stmt) (lib : Lib) (row : String → Cell) (σ : String → Bool) : Prop :=
+  ∀ i ∈ vInsts stmts, libHas lib i.ty = true → ∃ fs, cellFuns row i.ty = some fs ∧
+    ∀ o ∈ outConn tl (sigDecls stmts) i, ∀ f, fs[o.1]? = some f → σ o.2 = f (libInVals tl σ i (row i.ty).inNames.length)
+
+/-- for certified instances: relational meaning of the implementations ⇔ datasheet functions -/
+theorem libRel_iff_libDS (hok : VOK cfg tl ports stmts) (lib : Lib) (hw : WF (verilogNNet cfg tl ports stmts))
+    (row : String → Cell) (ord : String → List Nat)
+    (hcert : ∀ c, c < (verilogNNet cfg tl ports stmts).net.nodes.size →
+      (lib.find ((verilogNNet cfg tl ports stmts).net.node c).kind).isSome = true → InstCert lib row ord (verilogNNet cfg tl ports stmts) c)
+    (σ : String → Bool) :
+    LibRel cfg tl ports stmts lib false (!·) prim2 σ ↔ LibDS tl stmts lib row σ := by
+  have key : ∀ i ∈ vInsts stmts, isLibInst lib i →
+      ((∃ impl sh anm vm, lib.find i.ty = some impl ∧ implShape impl = some sh ∧
+        ImplMatches (verilogNNet cfg tl ports stmts) ((module cfg tl ports stmts).nodeIdx (.cell i.name 0)) impl sh false (!·) prim2
+          anm vm (vLabel cfg tl stmts false prim2 σ)) ↔
+       ∃ fs, cellFuns row i.ty = some fs ∧ ∀ o ∈ outConn tl (sigDecls stmts) i, ∀ f, fs[o.1]? = some f →
+         σ o.2 = f (libInVals tl σ i (row i.ty).inNames.length)) := by
+    intro i hi hlib
+    have hres := v_resolved_inst hok i hi 0
+    have hsz : (module cfg tl ports stmts).nodeIdx (.cell i.name 0) < (verilogNNet cfg tl ports stmts).net.nodes.size := by
+      show _ < (verilogNet cfg tl ports stmts).nodes.size
+      unfold verilogNet; rw [toNet_nodes_size]; exact hres
+    have hk := inst_node_kind hok i hi
+    have cert := hcert _ hsz (by rw [hk]; exact hlib)
+    have hn := cert_ins_length cert
+    rw [hk] at hn
+    have h1 := cell_datasheet_iff cert (vLabel cfg tl stmts false prim2 σ)
+    rw [hk] at h1
+    rw [h1]
+    exact cellDatasheet_iff_module hok hw row i hi σ _ (fun _ _ => rfl) hn
+  constructor
+  · intro h i hi hlib
+    exact (key i hi hlib).mp (h i hi hlib)
+  · intro h i hi hlib
+    exact (key i hi hlib).mpr (h i hi hlib)
+
+theorem vModelLib_iff (lib : Lib) (row : String → Cell) (a : Nat → Bool) (σ : String → Bool) :
+    VModelLib (libHas lib) row tl ports stmts a σ ↔
+      VModelOff (isLibInst lib) tl ports stmts false (!·) prim2 a σ ∧ LibDS tl stmts lib row σ := Iff.rfl
+
+/-- **(c) resolved labellings ↔ datasheet models of the module** -/
+theorem verilog_resolved_datasheet (hok : VOK cfg tl ports stmts) (lib : Lib) (hcl : LibClean lib stmts) (h' : NNet)
+    (hw : (verilogNNet cfg tl ports stmts).wf = true)
+    (hrok : resolveOKB lib (verilogNNet cfg tl ports stmts).keys (verilogNNet cfg tl ports stmts) = true)
+    (he : resolveCells lib (verilogNNet cfg tl ports stmts) = some h') (row : String → Cell) (ord : String → List Nat)
+    (hcert : ∀ c, c < (verilogNNet cfg tl ports stmts).net.nodes.size →
+      (lib.find ((verilogNNet cfg tl ports stmts).net.node c).kind).isSome = true → InstCert lib row ord (verilogNNet cfg tl ports stmts) c) :
+    h'.wf = true ∧ h'.net.io = (verilogNet cfg tl ports stmts).io ∧
+    (∀ d, d < (verilogNet cfg tl ports stmts).nodes.size → (lib.find ((verilogNet cfg tl ports stmts).node d).kind).isSome = false →
+      h'.net.node d = (verilogNet cfg tl ports stmts).node d) ∧
+    (∀ an' v' : Nat → Bool, ConsOff h' (fun _ => False) false (!·) prim2 an' v' →
+      ∃ σ, VModelLib (libHas lib) row tl ports stmts (fun p => an' ((verilogNet cfg tl ports stmts).sNodes.getD p 0)) σ ∧
+        (∀ l, l < (verilogNet cfg tl ports stmts).lines.size → v' l = vLabel cfg tl stmts false prim2 σ l)) ∧
+    (∀ (a : Nat → Bool) (σ : String → Bool), VModelLib (libHas lib) row tl ports stmts a σ →
+      ∃ an' v', ConsOff h' (fun _ => False) false (!·) prim2 an' v' ∧
+        (∀ l, l < (verilogNet cfg tl ports stmts).lines.size → v' l = vLabel cfg tl stmts false prim2 σ l) ∧
+        (∀ d, d < (verilogNet cfg tl ports stmts).nodes.size → (lib.find ((verilogNet cfg tl ports stmts).node d).kind).isSome = false →
+          an' d = a ((verilogNet cfg tl ports stmts).sNodes.idxOf d))) := by
+  have hW := WF.of_wf hw
+  obtain ⟨r1, r2, r3, fw, bw⟩ := verilog_resolved_rel hok lib hcl h' hw hrok he false (!·) prim2
+  refine ⟨r1, r2, r3, ?_, ?_⟩
+  · intro an' v' hc
+    obtain ⟨σ, hm, hl, hrel⟩ := fw an' v' hc
+    exact ⟨σ, ⟨hm, (libRel_iff_libDS hok lib hW row ord hcert σ).mp hrel⟩, hl⟩
+  · intro a σ hm
+    exact bw a σ hm.1 ((libRel_iff_libDS hok lib hW row ord hcert σ).mpr hm.2)
+
 end KV.Netlist
